@@ -50,6 +50,10 @@ ssize_t substdio_get(substdio *s, char *buf, size_t len)
     break;   /* a read may always return fewer bytes than asked for */
 #endif
   }
+  /* ghost of the real read buffer: after a call that delivered data the stream object may hold read-ahead bytes of the
+   * descriptor it is bound to (s->p != 0) until end of file is seen or substdio_fdbuf() (the real substdio.c) resets it;
+   * a harness can assert s->p == 0 where a stream is expected to start afresh */
+  s->p = (n || c == -2) ? 1 : 0;
   if (n) return (ssize_t) n;
   return c == -2 ? -1 : 0;
 }
